@@ -83,6 +83,13 @@ FEPS = 2.220446049250313e-16  # th.finfo(float64).eps
 def R(x) -> str:
     x = float(x)
     assert math.isfinite(x), x
+    if 0.9 < abs(x) < 1.0:
+        # close to +-1 the goal is ill-conditioned in 1 - |a|: the shortest decimal repr differs from the double by up to
+        # half an ulp, which is not negligible relative to 1 - |a|; print the double exactly (n / 2^k)
+        from fractions import Fraction
+
+        fr = Fraction(x)
+        return f"({'-' if fr.numerator < 0 else ''}{abs(fr.numerator)} / {fr.denominator})"
     s = repr(abs(x))
     if "e" in s:
         m, e = s.split("e")
@@ -1284,9 +1291,13 @@ def main():
         bad_goals = [i for i in failed if owner[i] == k]
         if not o.problems and not bad_goals:
             continue
-        oracle_bad = [p for p in o.problems]
-        if oracle_bad and all(s_ == KNOWN_MODE_SIG for s_, _ in oracle_bad) and not bad_goals:
-            chk.violation(KNOWN_MODE_SIG, oracle_bad[0][1], {"case": cases[k], "problems": oracle_bad}, found_input=True)
+        known_here = [p for p in o.problems if p[0] == KNOWN_MODE_SIG]
+        oracle_bad = [p for p in o.problems if p[0] != KNOWN_MODE_SIG]
+        if known_here:   # the known finding is reported by its own signature and never uses up the report budget
+            chk.violation(KNOWN_MODE_SIG, known_here[0][1], {"case": cases[k], "problems": known_here}, found_input=True)
+        if not oracle_bad and not bad_goals:
+            continue
+        if reported >= 3:
             continue
         if oracle_bad:
             sig = oracle_bad[0][0]
@@ -1298,8 +1309,6 @@ def main():
                           f"Interval could not prove {goals[i][1][:300]} (implementation value {goals[i][2].get('impl')!r}); the textbook oracle accepts the implementation's value",
                           {"case": cases[k], "goal": goals[i][1], "correspondence": "harness/c14.py goals vs Model/Distributions.v"}, found_input=False)
         reported += 1
-        if reported >= 3:
-            break
     chk.coverage["evaluations"] = len(goals) + sum(o.checks for o in outs)
     chk.coverage["traces_validated_against_impl"] = len(cases)
     nontriv = sum(1 for c in cases if c.get("b", 0) >= 2 or c.get("d", 0) >= 2 or c.get("n", 0) >= 3 or len(c.get("dims", [])) >= 2)
